@@ -54,3 +54,8 @@ package caching
 //@   loop 0: invariant forall j int :: 0 <= j && j < len(self.b) ==> same(self.b[j], old(self.b[j]))
 //@   loop 0: modifies fork.b[_]
 //@   loop 0: decreases len(self.b) - rangeindex
+
+// StrHash: a function of the string's content, never 0 (0 marks an empty slot).
+//@ pure func strHash(s text) uint64
+//@ func StrHash assumed "runtime.strhash through linkname: a deterministic function of the bytes"
+//@   ensures result == strHash(txt(s)) && result != 0
